@@ -21,7 +21,7 @@ FUEL = 50
 OTHER = 99
 CODE_NAMES = ["Accepted", "NoSuchSpace", "NoSuchMember", "InvalidName", "NameInUse", "Cyclic", "NoMro", "NameConflict",
               "NotABase", "IsDerived", "HasBases", "BadFormula", "NoneValue", "NotAllowed"]
-OPS = ["NewSpace", "NewCells", "SetFormula", "RenameCells", "RenameSpace", "AddBases", "RemoveBases", "SetAttr", "DelAttr"]
+OPS = ["NewSpace", "NewCells", "SetFormula", "RenameCells", "RenameSpace", "AddBases", "RemoveBases", "SetAttr", "DelAttr", "SetParams"]
 
 POOL = ["a", "b", "c", "d"]
 INVALID = ["", "1a", "for", "_x", "a b", "a.b"]
@@ -37,6 +37,11 @@ def is_valid_name(s):
     if not all(c.isalnum() or c == "_" for c in s):
         return False
     return s not in keyword.kwlist and not s.startswith("_")
+
+
+def is_param_name(s):
+    return bool(s) and all(ord(c) < 128 for c in s) and (s[0].isalpha() or s[0] == "_") and \
+        all(c.isalnum() or c == "_" for c in s) and s not in keyword.kwlist
 
 
 def c3(g, n, depth=0):
@@ -210,7 +215,7 @@ class Mirror:
         for b in bases:
             bs = add_base(bs, b)
         m = self._new()
-        m.sp[p] = {"cells": {}, "refs": {}, "bases": bs, "namer": 0}
+        m.sp[p] = {"cells": {}, "refs": {}, "bases": bs, "namer": 0, "params": None}
         if not m.all_mro_ok():
             return NOMRO, None
         if not m.all_disjoint():
@@ -424,6 +429,16 @@ class Mirror:
             return NOTALLOWED, None
         return NOSUCHMEMBER, None
 
+    def _SetParams(self, s, ps):
+        if s not in self.sp:
+            return NOSUCHSPACE, None
+        ok = all(is_param_name(x) for x in ps) and len(set(ps)) == len(ps)
+        if not ok:
+            return BADFORMULA, None
+        m = self._new()
+        m.sp[s]["params"] = list(ps)
+        return ACCEPTED, m
+
     # ---- triggers of the recorded defects: decidable on (ideal state before the op, op, ideal result)
     def triggers(self, op, code, new):
         k = op[0]
@@ -451,6 +466,18 @@ class Mirror:
         if k == "SetFormula" and op[3][0] == "bad" and self.has_cells(s, op[2]) and \
                 (not self.def_cells(s, op[2]) or (s, op[2]) in self.inputs):
             t.append("D12")    # the rejected assignment has already made a derived cells defined / discarded the input
+        if k == "SetParams" and code == BADFORMULA and self.sp[s]["params"] is not None:
+            t.append("N11")    # the old space formula is deleted before the new one is parsed
+        if k == "SetFormula" and code == ACCEPTED:
+            # D2b (C03): set_cells_property overwrites a DEFINED cells of a sub space unless its first defined
+            # base cells is the edited one
+            n = op[2]
+            for d in self.subs(s):
+                if self.def_cells(d, n):
+                    first = next((b for b in self.ancs(d) if self.def_cells(b, n)), None)
+                    if first != s:
+                        t.append("D2b")
+                        break
         if k in ("NewSpace", "AddBases") and code == NAMECONFLICT:
             t.append("D13")
         if k == "NewSpace" and s and not self.in_namespace(s, op[2]) and first_sub_decides(s, op[2], self.has_child_only):
@@ -590,7 +617,7 @@ class Gen:
         if x < 0.69:
             nb = r.choice([0, 1, 1, 1, 2])
             return ["AddBases", any_path(), [any_path() for _ in range(nb)]]
-        if x < 0.76:
+        if x < 0.75:
             s = any_path()
             cur = mir.sp[tuple(s)]["bases"] if tuple(s) in mir.sp else []
             if cur and r.random() < 0.8:
@@ -600,7 +627,11 @@ class Gen:
             else:
                 bs = [any_path()]
             return ["RemoveBases", s, bs]
-        if x < 0.90:
+        if x < 0.80:
+            k = r.choice([1, 1, 2, 3])
+            ps = [r.choice(POOL + ["i", "_j"]) if r.random() > 0.1 else r.choice(["for", "1a", "a b", "a.b"]) for _ in range(k)]
+            return ["SetParams", any_path(), ps]
+        if x < 0.92:
             s = [] if r.random() < 0.25 else any_path()
             v = None if r.random() < 0.2 else r.randrange(100)
             return ["SetAttr", s, self.name(), v]
@@ -753,6 +784,33 @@ def c12_oracle(ops, r, exempt_n9=True):
                     want = "space"
                 if kd != want:
                     bad.append("step %d %r: %s.%s is %r, the containers say %r" % (i - 1, op, p, n, kd, want))
+            # the ItemSpace space[0,...]: dir() == cells + refs + spaces; refs == arguments over special names over
+            # the base space's own references over the model's; a parameter wins over a reference, a cells over a parameter
+            it = d.get("item")
+            if it is not None:
+                if "err" in it or "clear_err" in it:
+                    bad.append("step %d %r: the ItemSpace of %s cannot be built / deleted: %r" % (i - 1, op, p, it))
+                else:
+                    iexp = {}
+                    for n, v in o["grefs"].items():
+                        iexp[n] = v
+                    for n, (dflag, v) in d["own"].items():
+                        iexp[n] = v
+                    for n in SYS:
+                        iexp[n] = None
+                    for n in d["params"]:
+                        iexp[n] = 0
+                    if it["refs"] != iexp:
+                        bad.append("step %d %r: %s[0..].refs %r != parameters over special names over base refs over model refs %r" % (i - 1, op, p, it["refs"], iexp))
+                    if sorted(it["cells"]) != sorted(c) or sorted(it["spaces"]) != sorted(s):
+                        bad.append("step %d %r: %s[0..] cells / spaces %r %r differ from the base space's %r %r" % (i - 1, op, p, it["cells"], it["spaces"], sorted(c), sorted(s)))
+                    ivis = c | set(iexp) | s
+                    if sorted(it["dir"]) != sorted(ivis):
+                        bad.append("step %d %r: dir(%s[0..]) %r != cells + refs + spaces %r" % (i - 1, op, p, sorted(it["dir"]), sorted(ivis)))
+                    for n, kd in it["attrs"].items():
+                        want = "cells" if n in c else ({"_self": "space", "_space": "space", "_model": "model", "__builtins__": "builtins"}.get(n, ["v", iexp[n]]) if n in iexp else "space")
+                        if kd != want:
+                            bad.append("step %d %r: %s[0..].%s is %r, the containers say %r" % (i - 1, op, p, n, kd, want))
             # a derived member has a definer among the bases; a defined one is not shadowed away
             for kind in ("cells", "own"):
                 for n, rec in d[kind].items():
@@ -827,6 +885,8 @@ def cop(op):
         return "(SetAttr %s %s %s)" % (cpath(op[1]), cstr(op[2]), crval(op[3]))
     if k == "DelAttr":
         return "(DelAttr %s %s)" % (cpath(op[1]), cstr(op[2]))
+    if k == "SetParams":
+        return "(SetParams %s %s)" % (cpath(op[1]), clist([cstr(x) for x in op[2]]))
     raise RuntimeError(op)
 
 
@@ -863,7 +923,9 @@ def cobs(o):
         sp.append(ctuple([cpath(path), cells, refs, clist([cstr(x) for x in sorted(d["spaces"])]),
                           clist([cpath(split_path(b, o)) for b in d["direct"]]),
                           clist([cpath(split_path(b, o)) for b in d["bases"]]),
-                          clist([cstr(x) for x in sorted(d["dir"])])]))
+                          clist([cstr(x) for x in sorted(d["dir"])]),
+                          "None" if d["params"] is None else "(Some %s)" % clist([cstr(x) for x in d["params"]]),
+                          "(Some %s)" % clist([cstr(x) for x in sorted(d["item"]["dir"])]) if d.get("item") and "dir" in d["item"] else "None"]))
     gr = clist([ctuple([cstr(n), crval(v)]) for n, v in sorted(o["grefs"].items()) if n != "__builtins__"])
     return ctuple([clist(sp), gr])
 
@@ -948,6 +1010,8 @@ def matrix_histories(rng, n_each):
         cands.append(["NewCells", s, None, ["def", rng.choice(POOL), 5]])
         cands.append(["NewCells", s, None, ["bad", 2]])
         cands.append(["NewCells", s, None, ["none"]])
+        for ps in (["i"], ["i", "i"], ["for"], ["a", "_b"], ["1a"], []):
+            cands.append(["SetParams", s, ps])
         rng.shuffle(cands)
         for op in cands[:14]:
             code, new = mir.plan(op)
@@ -1069,7 +1133,7 @@ def run_check(prop, tier, seed, rng):
                         "operation_x_outcome_on_the_implementation": dict(sorted(implm.items())),
                         "draws_filtered_by_defect_trigger": dict(sorted(filt.items()))}
     out.notes.append("defect triggers avoided by the generator (decidable predicates on ideal state + operation, nameslib.Mirror.triggers): "
-                     "D3 D11 D12 D13 D23 D34 N1 N2 N3 N4 N5 N6 N7 N8; N9 (the self-check itself fails when two spaces of the tree share a "
+                     "D2b (C03) D3 D11 D12 D13 D23 D34 N1 N2 N3 N4 N5 N6 N7 N8 N10; N9 (the self-check itself fails when two spaces of the tree share a "
                      "bare name) is handled in the oracle: an AssertionError of the self-check is ignored in such states, and a share of the "
                      "histories keeps all space names distinct so that the self-checks are fully evaluated there")
     return out
